@@ -29,9 +29,10 @@ RULE = ("breadth-first enumeration of ALL histories of API calls up to the state
 ASSUMPTIONS = [
     "bounded: histories up to the depth given in each configuration name, call menus as listed in checks/c13_bus.py MENUS, "
     "c13_locs.py, c13_platform.py; bus menus: 7 origins x 7 sizes x cached/uncached, 4 IO regions, 32- and 64-bit spaces",
-    "a call that constructs more than %d candidate regions (alloc_region walking behind a large region in steps of the small "
-    "requested size, DESIGN candidate z) is cut deterministically, recorded as outcome 'budget' and not extended; it is not "
-    "a violation (nothing is built); a 5 s SIGALRM backstop catches genuinely non-terminating calls (outcome 'timeout')" % K.WORK_BUDGET,
+    "a call that constructs more than %(quick)d (quick) / %(thorough)d (thorough) candidate regions (alloc_region walking behind a "
+    "large region in steps of the small requested size, DESIGN candidate z) is cut deterministically, recorded as outcome "
+    "'budget' and not extended; it is not a violation (nothing is built); a 5 s SIGALRM backstop catches genuinely "
+    "non-terminating calls (outcome 'timeout')" % K.WORK_BUDGET,
     "any exception counts as 'rejected with an error'; what a rejected SoCError call leaves behind in the handler is only "
     "counted (SoCError is fatal for a build); for ConstraintManager a failed call must leave available/matched untouched",
     "linker regions are exempt from disjointness and are never attached to a slave; alignment is demanded at finalisation only; "
@@ -87,20 +88,22 @@ def configs(tier):
     thorough = tier == "thorough"
     C = []
     main = dict(aw=32, dw=32, ioc=True)
-    # (a) bus handler histories
-    C += _hist_cfgs("bus.aw32dw32.full", "bus", dict(main, menu="full"), 3, 6)
+    # (a) bus handler histories: full menu (all kinds, name reuse, attach) / mid (slaves + linker regions) / core (slaves + IO)
     if thorough:
+        C += _hist_cfgs("bus.aw32dw32.full", "bus", dict(main, menu="full"), 3, 6)
         C += _hist_cfgs("bus.aw32dw32.mid", "bus", dict(main, menu="mid"), 4, 2)
         C += _hist_cfgs("bus.aw32dw32.core", "bus", dict(main, menu="core"), 5, 1)
     else:
-        C += _hist_cfgs("bus.aw32dw32.core", "bus", dict(main, menu="core"), 4, 2)
+        C += _hist_cfgs("bus.aw32dw32.full", "bus", dict(main, menu="full"), 2, 50)
+        C += _hist_cfgs("bus.aw32dw32.mid", "bus", dict(main, menu="mid"), 3, 10)
+        C += _hist_cfgs("bus.aw32dw32.core", "bus", dict(main, menu="core"), 4, 1)
     d = 4 if thorough else 3
     ch = 3 if thorough else 13
     C += _hist_cfgs("bus.aw32dw64.core", "bus", dict(aw=32, dw=64, ioc=True, menu="core"), d, ch)
     C += _hist_cfgs("bus.aw64dw64.core", "bus", dict(aw=64, dw=64, ioc=True, menu="core"), d, ch)
     C += _hist_cfgs("bus.aw32dw32.nocheck.core", "bus", dict(aw=32, dw=32, ioc=False, menu="core"), d, ch)
     for ic in ("shared", "crossbar"):
-        C += _hist_cfgs(f"busreal.aw32dw32.{ic}", "busreal", dict(aw=32, dw=32, interconnect=ic), 3 if thorough else 2, 2 if thorough else 8)
+        C += _hist_cfgs(f"busreal.aw32dw32.{ic}", "busreal", dict(aw=32, dw=32, interconnect=ic), 4 if thorough else 3, 1 if thorough else 2)
     # (b) decoders on stub buses
     for aw in (8, 10):
         for dw in (32, 64):
@@ -122,7 +125,14 @@ def configs(tier):
 # ----------------------------------------------------------------------------------------------------------------------
 
 def run_config(cfg, seed, tier):
+    r = _run_config(cfg, seed, tier)
+    r["work_budget_per_call"] = K._Budget.limit
+    return r
+
+
+def _run_config(cfg, seed, tier):
     name, kind = cfg[0], cfg[1]
+    K.set_budget(tier)
     with Instrumentation():
         if kind == "dec":
             from checks.c13_bus import decoder_sweep
@@ -166,7 +176,7 @@ def extra_coverage(results):
     per_config = [{k: v for k, v in r.items() if k not in ("violations", "sample", "machinery_error", "cfg_args", "digests")} for r in results]
     out = dict(per_config=per_config, cover_totals=dict(tot), distinct_per_part={k: len(v) for k, v in sorted(per_part.items())},
                distinct_summed_over_configurations=sum(int(r.get("distinct", 0) or 0) for r in results),
-               work_budget_per_call=K.WORK_BUDGET)
+               work_budget_per_call=max([int(r.get("work_budget_per_call", 0) or 0) for r in results] or [0]))
     if union:
         out["distinct_nontrivial"] = len(union)
     notes = {}
